@@ -133,6 +133,13 @@ def run_shard(spec, acc):
     tier, seed = spec["tier"], spec["seed"]
     quick = tier == "quick"
     dec, enc = NMEA2000Decoder(), NMEA2000Encoder()
+    if spec["i"] % 3 == 1:
+        # every third shard decodes on a decoder that builds the network map and knows the sender (device instance and all): what
+        # it decodes still encodes to the payload it came from - absent key fields stay absent
+        from .. import hist
+        dec = NMEA2000Decoder(build_network_map=True)
+        dec.decode_basic_string(wire.plain_line(6, 60928, 5, 255, hist.claim_name(4711, 1851, inst_lo=3, inst_hi=2, sys_inst=5).to_bytes(8, "little")), already_combined=True)
+        acc.count("shards_decoding_on_a_mapping_decoder_that_knows_the_sender")
     defs = [d for d in dbx.defs if d.encodable]
     # all definitions of one PGN number stay in the same shard (= same process), so that state leaking between
     # sibling definitions of a proprietary PGN is observable
